@@ -59,9 +59,12 @@ def rawform(n, seed):
     return ("!binary:" + b64(p), p)
 
 
-def mk(cid, cexts, pexts=None, klass="", iuid=None, suid=None):
+def mk(cid, cexts, pexts=None, klass="", iuid=None, suid=None, sigv=None, pubv=None):
     c = cfg("CN=extensions", extensions=[e.yaml() for e in cexts] or None,
             issuerUniqueId=iuid[0] if iuid else None, subjectUniqueId=suid[0] if suid else None)
+    if sigv or pubv:
+        # the two byte-valued manipulation fields: the signature value and the public-key bits
+        c["manipulations"] = dict(([(".signatureValue", sigv[0])] if sigv else []) + ([(".tbs.subjectPublicKey.subjectPublicKey", pubv[0])] if pubv else []))
     files = []
     if pexts is not None:
         files.append(("p.yaml", {"version": 1, "name": "p", "extensions": [e.yaml(True) for e in pexts]}))
@@ -69,7 +72,8 @@ def mk(cid, cexts, pexts=None, klass="", iuid=None, suid=None):
     files.append(("e.yaml", c))
     tag = {"prop": "C06", "ent": "e", "class": klass, "hasProfile": pexts is not None,
            "pexts": [e.tag() for e in (pexts or [])], "cexts": [e.tag() for e in cexts],
-           "iuid": {"present": bool(iuid), "bytes": list(iuid[1]) if iuid else []}, "suid": {"present": bool(suid), "bytes": list(suid[1]) if suid else []}}
+           "iuid": {"present": bool(iuid), "bytes": list(iuid[1]) if iuid else []}, "suid": {"present": bool(suid), "bytes": list(suid[1]) if suid else []},
+           "sigv": {"present": bool(sigv), "bytes": list(sigv[1]) if sigv else []}, "pubv": {"present": bool(pubv), "bytes": list(pubv[1]) if pubv else []}}
     return case(cid, files, tag=tag)
 
 
@@ -94,6 +98,16 @@ def cases(ctx):
     for f in ["null", "empty"] + lengths[:9]:
         seed += 1
         add([], klass="uid", iuid=rawform(f, seed), suid=rawform(f, seed + 500))
+
+    # the byte-valued manipulation fields as raw forms: each alone, both together (different values, either one longer), with unique ids
+    for f in ["null", "empty"] + lengths[:7]:
+        seed += 1
+        add([], klass="manip/signatureValue", sigv=rawform(f, seed))
+        add([], klass="manip/publicKeyBits", pubv=rawform(f, seed + 300))
+        g = lengths[(seed + 3) % 7]
+        add([], klass="manip/both", sigv=rawform(f, seed), pubv=rawform(g, seed + 700))
+        add([Ext("custom", 1, rawform(3, seed), custom_oid=CUSTOM_OIDS[0])], klass="manip/both+uids", sigv=rawform(g, seed + 900), pubv=rawform(f, seed + 1100),
+            iuid=rawform(2, seed + 1300), suid=rawform(f, seed + 1500))
 
     def rnd_ext(allow_nocontent=False, profile=False):
         k = r.choice(kinds)
